@@ -453,3 +453,123 @@ def rule_printscope(ctx, prop: str) -> RuleResult:
             res.add(Finding("PRINTSCOPE", PP, g.lineno, qn, "scopes", f"{qn} opens {n_push} scopes with env.push(); the bodies of If (both branches) and For each need their own"))
     res.floor = 2
     return res
+
+
+def rule_printsym(ctx, prop: str) -> RuleResult:
+    """Every symbol the printer writes into text goes through the name environment.
+
+    `PrintEnv.get_name` / `new_name` (and the UAST printer's methods of the same names) are
+    the only source of *disambiguated* names: a Sym that clashes with another Sym in scope is
+    issued `x_1`.  A Sym-typed ADT field (`sym name`, `sym iter`) that is interpolated into the
+    printed text directly (`f"stride({e.name}, ...)"`, `str(e.name)`) prints the raw base name,
+    which inside a scope with a clash names the OTHER variable — the text re-parses and
+    re-prints identically but denotes a different procedure.
+    The type of the field is taken from the ADT through the governing `isinstance` test."""
+    ix, adts = ctx.ix, ctx.adts
+    res = RuleResult("PRINTSYM")
+    PP = "src/exo/core/LoopIR_pprint.py"
+    m = ix.module(PP)
+    WRAP = {"get_name", "new_name"}
+    PARAM_TYPES = {"fnarg": "fnarg"}  # function-name fragment -> product type of its first node parameter
+    # read and confirmed: not part of the text of a procedure
+    TRIAGED = {
+        ("_print_type", "raw:WindowType.src_buf"): "debug rendering of a T.Window *type* (`Window(src_type=..,src_buf=..)`): the type of a window statement's right-hand side is never "
+        "printed in a procedure (WindowStmt prints `name = rhs`; allocation and argument types are T.Tensor), so this text is never re-parsed",
+    }
+
+    def sym_field(adt: str, ctor: str, attr: str) -> Optional[bool]:
+        mod = adts[adt]
+        outs = []
+        for k in adts.expand(adt, ctor):
+            c = mod.ctors.get(k)
+            if c is None:
+                continue
+            for f in c.fields:
+                if f.name == attr:
+                    outs.append(f.type == "sym")
+        return any(outs) if outs else None
+
+    def governing_types(node: ast.AST, var: str, f: Func):
+        out = []
+        p = node
+        while p is not None and p is not f.node:
+            par = parent(p)
+            if isinstance(par, ast.If) and any(p is s for s in par.body):
+                for k in ast.walk(par.test):
+                    if isinstance(k, ast.Call) and dotted(k.func) == "isinstance" and len(k.args) == 2 and isinstance(k.args[0], ast.Name) and k.args[0].id == var:
+                        cs = k.args[1].elts if isinstance(k.args[1], ast.Tuple) else [k.args[1]]
+                        for c in cs:
+                            r = adts.resolve_ctor(c, m)
+                            if r:
+                                out.append(r)
+                if out:
+                    return out
+            p = par
+        return out
+
+    def stringified(n: ast.AST, f: Func) -> Optional[ast.AST]:
+        par = parent(n)
+        if isinstance(par, ast.FormattedValue):
+            return par
+        if isinstance(par, ast.Call) and n in par.args and dotted(par.func) in ("str", "repr", "format"):
+            return par
+        if isinstance(par, ast.BinOp) and isinstance(par.op, (ast.Add, ast.Mod)):
+            return par
+        if isinstance(par, ast.Assign) and par.value is n and len(par.targets) == 1 and isinstance(par.targets[0], ast.Name):
+            nm = par.targets[0].id
+            for k in f.body_nodes():
+                if isinstance(k, ast.Name) and k.id == nm and isinstance(k.ctx, ast.Load) and k.lineno > par.lineno:
+                    s = stringified(k, f)
+                    if s is not None:
+                        return s
+        return None
+
+    n_wrapped = 0
+    for f in sorted(ix.all_funcs(), key=lambda f: f.lineno):
+        if f.file != PP:
+            continue
+        for n in f.body_nodes():
+            if not (isinstance(n, ast.Attribute) and isinstance(n.ctx, ast.Load) and isinstance(n.value, ast.Name)):
+                continue
+            par = parent(n)
+            if isinstance(par, ast.Call) and par.func is n:
+                continue  # method call  x.name()
+            var, attr = n.value.id, n.attr
+            if var == "self":
+                continue
+            types = governing_types(n, var, f)
+            if not types:
+                ps = [a for a in f.params() if a != "self"]
+                for frag, prod in PARAM_TYPES.items():
+                    if frag in f.qualname and ps and ps[0] == var:
+                        for adt_name in ("LoopIR", "UAST"):
+                            if adt_name in adts.mods and prod in adts[adt_name].ctors:
+                                types.append((adt_name, prod))
+            if not types:
+                continue
+            is_sym = [sym_field(a, c, attr) for a, c in types]
+            if not any(x for x in is_sym if x):
+                continue
+            res.instances += 1
+            res.nontrivial += 1
+            wrapped = isinstance(par, ast.Call) and n in par.args and last_name(par) in WRAP
+            if wrapped:
+                n_wrapped += 1
+                res.ob(True)
+                continue
+            s = stringified(n, f)
+            ok = s is None
+            if not ok and (f.qualname, f"raw:{types[0][1]}.{attr}") in TRIAGED:
+                res.ob(True)
+                res.sample(f"triaged: {f.qualname} `{ast.unparse(n)}` — {TRIAGED[(f.qualname, f'raw:{types[0][1]}.{attr}')][:80]}")
+                continue
+            res.ob(ok)
+            if not ok:
+                res.add(Finding("PRINTSYM", PP, n.lineno, f.qualname, f"raw:{types[0][1]}.{attr}",
+                                f"`{ast.unparse(s)[:70]}` writes the symbol `{ast.unparse(n)}` ({types[0][1]}.{attr}: sym) into the printed text without `get_name`: when the symbol was "
+                                f"renamed because another variable of the same name is in scope (x_1 after inline), the text names the other variable"))
+    res.sample(f"{n_wrapped} symbol fields reach the text through get_name/new_name")
+    if n_wrapped < 20:
+        raise AnalysisError(f"PRINTSYM: only {n_wrapped} get_name/new_name-wrapped symbol fields recognised in the printer — idiom changed, checker blind")
+    res.floor = 20
+    return res
